@@ -123,7 +123,7 @@ type rtCase struct {
 
 func genRTCase(t *rapid.T) *rtCase {
 	c := &rtCase{}
-	c.d = time.Duration(rapid.IntRange(40, 150).Draw(t, "delayMs")) * time.Millisecond
+	c.d = time.Duration(rapid.IntRange(80, 300).Draw(t, "delayMs")) * time.Millisecond
 	c.replace = rapid.Bool().Draw(t, "replace")
 	c.limit = rapid.SampledFrom([]int{-1, 1, 2, 3}).Draw(t, "queueLimit")
 	c.taskDur = time.Duration(rapid.IntRange(0, int(c.d.Milliseconds())*3/2).Draw(t, "taskDurMs")) * time.Millisecond
@@ -186,15 +186,24 @@ func (c *rtCase) run() {
 	}
 	// canary: timers of the same duration armed next to the requests
 	var canaryMu sync.Mutex
+	var chainMu sync.Mutex
 	arm := func() {
 		s := time.Now()
+		// a timer, then the kind of chain a start goes through: goroutine, lock, goroutine, channel
 		time.AfterFunc(c.d, func() {
-			late := time.Since(s) - c.d
-			canaryMu.Lock()
-			if late > c.canary {
-				c.canary = late
-			}
-			canaryMu.Unlock()
+			go func() {
+				chainMu.Lock()
+				chainMu.Unlock()
+				done := make(chan struct{})
+				go func() { close(done) }()
+				<-done
+				late := time.Since(s) - c.d
+				canaryMu.Lock()
+				if late > c.canary {
+					c.canary = late
+				}
+				canaryMu.Unlock()
+			}()
 		})
 	}
 	// second canary: how late does a goroutine of this process wake up from a short sleep and get through a
@@ -280,15 +289,15 @@ func (c *rtCase) run() {
 // bound could be judged (canary quiet).
 func (c *rtCase) check() (violations []string, upperJudged bool, classes map[string]int) {
 	classes = map[string]int{}
-	// an "additional delay" is a second wait of the order of d; everything below d/2 is scheduling noise
-	eps := c.d / 2
-	if eps < 25*time.Millisecond {
-		eps = 25 * time.Millisecond
+	// an "additional delay" is a second wait of the order of d; everything below 0.4 d is scheduling noise
+	eps := c.d * 2 / 5
+	if eps < 40*time.Millisecond {
+		eps = 40 * time.Millisecond
 	}
-	if eps > 100*time.Millisecond {
-		eps = 100 * time.Millisecond
+	if eps > 120*time.Millisecond {
+		eps = 120 * time.Millisecond
 	}
-	upperJudged = c.canary < eps/5
+	upperJudged = c.canary < eps/8
 	type started struct {
 		j     *rtJob
 		start time.Time
@@ -369,7 +378,7 @@ func (c *rtCase) check() (violations []string, upperJudged bool, classes map[str
 
 // TestC07Real: start delay is a lower bound and adds no extra delay; replace debounces (real timers).
 func TestC07Real(t *testing.T) {
-	col := ev.Get("C07", "realtime", "real start-delay timers: delay d in [40,150] ms, bursts of 1-6 schedule requests with spacings drawn relative to d (inside / around / across the window), both strategies, queue limits, task durations 0-1.5d so that timers expire while the pipeline is busy, occasional cancels; 16 cases run at the same time; oracle: first task begin >= instant before the request + d and start - created >= d (robust under load); start <= max(accept + d, previous job reported finished) + clamp(d/2, 25 ms, 100 ms) (an additional delay is a second wait of the order of d), judged only if canary timers of the same d armed next to the requests and a sleep/hand-over canary goroutine were late by less than a fifth of that tolerance; a replaced job never runs, a started job is never displaced, the newest accepted job runs unless canceled, nothing is left waiting; non-trivial = a burst of >=3 accepted requests or a timer that expired while the slot was busy; distinct by plan")
+	col := ev.Get("C07", "realtime", "real start-delay timers: delay d in [80,300] ms, bursts of 1-6 schedule requests with spacings drawn relative to d (inside / around / across the window), both strategies, queue limits, task durations 0-1.5d so that timers expire while the pipeline is busy, occasional cancels; 16 cases run at the same time; oracle: first task begin >= instant before the request + d and start - created >= d (robust under load); start <= max(accept + d, previous job reported finished) + clamp(0.4 d, 40 ms, 120 ms) (an additional delay is a second wait of the order of d), judged only if canaries - timers of the same d armed next to the requests followed by a goroutine/lock/channel chain, and a sleep/hand-over loop - were late by less than an eighth of that tolerance; a replaced job never runs, a started job is never displaced, the newest accepted job runs unless canceled, nothing is left waiting; non-trivial = a burst of >=3 accepted requests or a timer that expired while the slot was busy; distinct by plan")
 	installHooks()
 	rapid.Check(t, func(rt *rapid.T) {
 		const batch = 16
